@@ -108,3 +108,52 @@ let () =
           mismatch ln line (Printf.sprintf "slice life %s: model gives %s/%s" !tag (res_name r) (st_name s'.M.wst))
     | _ -> failwith "l args");
   register "ENDLIFE" (fun _ _ _ -> lstate := None)
+
+(* ---------------- dispatch / in-flight accounting (coq/SliceDisp.v) ---------------- *)
+let dbuf : (int * string * M.dev option) list ref = ref []
+
+let dev_of (a : string list) : M.dev option =
+  match a with
+  | ["acceptj"] -> Some M.DAcceptJ
+  | ["rejectj"] -> Some M.DRejectJ
+  | ["enqother"] -> Some M.DEnqOther
+  | ["deqj"] -> Some M.DDeqJ
+  | ["deqothersameq"] -> Some M.DDeqOtherSameQ
+  | ["deqotherq"] -> Some M.DDeqOtherQ
+  | ["purgeq"; n] -> Some (M.DPurgeQ (nat n))
+  | ["claimj"; ok] -> Some (M.DClaimJ (b ok))
+  | ["reserve"; a; c] -> Some (M.DReserve (nat a, nat c))
+  | ["wfenterother"] -> Some M.DWfEnterOther
+  | ["wfexitother"] -> Some M.DWfExitOther
+  | ["recheck"; v] -> Some (M.DRecheck (nat v))
+  | ["unresdoomed"] -> Some M.DUnresDoomed
+  | ["unresok"] -> Some M.DUnresOk
+  | ["unresskipj"] -> Some M.DUnresSkipJ
+  | ["unresskipother"] -> Some M.DUnresSkipOther
+  | ["wfenterj"] -> Some M.DWfEnterJ
+  | ["wfexitj"] -> Some M.DWfExitJ
+  | ["releasej"] -> Some M.DReleaseJ
+  | ["releaseother"] -> Some M.DReleaseOther
+  | ["ststore"; v] -> Some (M.DStatusStore (nat v))
+  | ["stload"; v] -> Some (M.DStatusLoad (nat v))
+  | ["curload"; v] -> Some (M.DCurLoad (nat v))
+  | ["lenq"; v] -> Some (M.DLenReadQ (nat v))
+  | _ -> None
+
+let () =
+  register "DISP" (fun _ _ a -> (match a with t :: _ -> tag := t | _ -> ()); dbuf := []);
+  register "d" (fun ln line a -> dbuf := (ln, line, dev_of a) :: !dbuf);
+  register "ENDDISP" (fun ln line _ ->
+    let evs = List.rev !dbuf in
+    incr checked;
+    (match List.find_opt (fun (_, _, r) -> r = None) evs with
+     | Some (l, s, _) -> mismatch l s ("slice disp " ^ !tag ^ ": operation on the worker's in-flight accounting unknown to the model")
+     | None ->
+       let raws = List.filter_map (fun (_, _, r) -> r) evs in
+       (match M.drun_from (nat_of_int 0) raws with
+        | M.Inr _ -> ()
+        | M.Inl i ->
+          let k = int_of_nat i in
+          let (l, s, _) = List.nth evs k in
+          mismatch l s (Printf.sprintf "slice disp %s: event %d is not enabled in the model (or observed a value the model does not predict)" !tag k)));
+    dbuf := [])
